@@ -1,0 +1,149 @@
+/*!
+Verification hooks. This module is compiled only with `--cfg ripgrep_verif`
+and does nothing unless an event callback has been installed, either with
+[`set_event_fn`] or by making a symbol named `ripgrep_verif_event` visible to
+the dynamic linker (for example via `LD_PRELOAD`).
+
+The callback lets an external deterministic scheduler serialise the worker
+threads of the parallel walker: every hooked synchronisation point calls
+[`event`] *before* performing its operation, and the callback returns only
+when the calling thread is allowed to proceed.
+*/
+
+use std::{
+    fs, io,
+    sync::atomic::{AtomicUsize, Ordering},
+    sync::Once,
+};
+
+/// The type of the event callback.
+pub type EventFn = extern "C-unwind" fn(site: u32, arg: usize) -> i32;
+
+/// A hooked program point.
+#[derive(Clone, Copy, Debug, Eq, Hash, PartialEq)]
+#[repr(u32)]
+pub enum Site {
+    /// The parallel walker is about to spawn `arg` workers.
+    WalkBegin = 0,
+    /// All workers of the parallel walker have been joined.
+    WalkEnd = 1,
+    /// A worker with deque index `arg` starts on the calling thread.
+    WorkerBegin = 2,
+    /// The calling worker's loop has ended.
+    WorkerEnd = 3,
+    /// About to push on to the deque with index `arg`.
+    Push = 4,
+    /// About to pop from (or, failing that, steal for) deque `arg`.
+    Pop = 5,
+    /// About to try stealing from one victim.
+    StealOne = 6,
+    /// About to decrement the active worker counter.
+    Deactivate = 7,
+    /// About to increment the active worker counter.
+    Activate = 8,
+    /// About to read the quit flag.
+    IsQuitNow = 9,
+    /// About to set the quit flag.
+    QuitNow = 10,
+    /// About to sleep because no work was found. A non-zero answer from
+    /// the callback means "the sleep has been simulated, skip it".
+    IdleSleep = 11,
+    /// A point in the caller's code (visitor, search, print).
+    User = 12,
+    /// A directory has been read; `arg` is a hash of its file name and its
+    /// number of entries. A non-zero answer is a seed with which the
+    /// (name-sorted) entries are permuted.
+    ReaddirOrder = 13,
+    /// Asks whether the entry at (permuted) index `arg` of the directory
+    /// just read should be replaced by an I/O error.
+    ReaddirFault = 14,
+}
+
+static EVENT_FN: AtomicUsize = AtomicUsize::new(0);
+static LOOKUP: Once = Once::new();
+
+extern "C" {
+    fn dlsym(
+        handle: *mut std::ffi::c_void,
+        symbol: *const std::ffi::c_char,
+    ) -> *mut std::ffi::c_void;
+}
+
+/// Install (or remove) the event callback for this process.
+pub fn set_event_fn(f: Option<EventFn>) {
+    LOOKUP.call_once(|| {});
+    EVENT_FN.store(f.map_or(0, |f| f as usize), Ordering::SeqCst);
+}
+
+fn event_fn() -> Option<EventFn> {
+    LOOKUP.call_once(|| {
+        // RTLD_DEFAULT is a null handle on Linux.
+        let sym = unsafe {
+            dlsym(std::ptr::null_mut(), c"ripgrep_verif_event".as_ptr())
+        };
+        if !sym.is_null() {
+            EVENT_FN.store(sym as usize, Ordering::SeqCst);
+        }
+    });
+    let p = EVENT_FN.load(Ordering::SeqCst);
+    if p == 0 {
+        None
+    } else {
+        Some(unsafe { std::mem::transmute::<usize, EventFn>(p) })
+    }
+}
+
+/// Report that the calling thread has reached `site`. Returns the callback's
+/// answer, or `0` when no callback is installed.
+pub fn event_value(site: Site, arg: usize) -> i32 {
+    match event_fn() {
+        None => 0,
+        Some(f) => f(site as u32, arg),
+    }
+}
+
+/// Like `event_value`, but only reports whether the answer was non-zero.
+pub fn event(site: Site, arg: usize) -> bool {
+    event_value(site, arg) != 0
+}
+
+/// Gives the callback control over the order in which directory entries are
+/// seen (the operating system's order is not reproducible) and lets it turn
+/// individual entries into errors. Without a callback the entries are passed
+/// through untouched.
+pub(crate) fn readdir(
+    rd: fs::ReadDir,
+) -> std::vec::IntoIter<io::Result<fs::DirEntry>> {
+    let mut ents: Vec<io::Result<fs::DirEntry>> = rd.collect();
+    if event_fn().is_none() {
+        return ents.into_iter();
+    }
+    ents.sort_by_key(|e| e.as_ref().ok().map(|e| e.file_name()));
+    // Identify the directory by its own name only, so that the answer does
+    // not depend on where a scratch tree happens to live.
+    let mut id = 0xcbf29ce484222325u64 ^ ents.len() as u64;
+    let dir = ents.iter().find_map(|e| e.as_ref().ok()).map(|e| e.path());
+    let name = dir.as_ref().and_then(|p| p.parent()).and_then(|p| p.file_name());
+    for &b in name.map_or(&[][..], |n| n.as_encoded_bytes()) {
+        id = (id ^ u64::from(b)).wrapping_mul(0x100000001b3);
+    }
+    let seed = event_value(Site::ReaddirOrder, id as usize);
+    if seed != 0 {
+        let mut x = (seed as u32 as u64) | 1 << 32;
+        for i in (1..ents.len()).rev() {
+            x ^= x << 13;
+            x ^= x >> 7;
+            x ^= x << 17;
+            ents.swap(i, (x % (i as u64 + 1)) as usize);
+        }
+    }
+    for i in 0..ents.len() {
+        if event(Site::ReaddirFault, i) {
+            ents[i] = Err(io::Error::new(
+                io::ErrorKind::Other,
+                "ripgrep_verif: injected readdir error",
+            ));
+        }
+    }
+    ents.into_iter()
+}
